@@ -143,7 +143,25 @@ Theorem C32_array_group_own_task :
   (forall x, In x pending -> NoSpace (fullname (info x))) ->
   (forall x, In x group -> In x (group_of shipped info pending k)) -> group <> [] ->
   In j group -> array_command_task info group = Some (fullname (info j)).
-Proof. intros J info. exact (group_own_task J info shipped eq_refl). Qed.
+Proof. intros J info. exact (group_own_task J info shipped eq_refl eq_refl). Qed.
+
+(** all jobs bunched into one array have the options (rendered item list, names AND values) of
+    jobs[0], with whose options the array is submitted *)
+Theorem C32_array_group_same_options :
+  forall (J : Type) (info : J -> tinfo) pending k group h rest j,
+  (forall x, In x pending -> NoSpace (fullname (info x))) ->
+  (forall x, In x group -> In x (group_of shipped info pending k)) -> group = h :: rest ->
+  In j group -> t_opts (info j) = t_opts (info h).
+Proof. intros J info. exact (group_same_options J info shipped eq_refl eq_refl). Qed.
+
+(** refuted when the key lists option names only: memory=4 and memory=64 share an array *)
+Theorem C32_grouping_names_only_refuted :
+  (group_of (names_only shipped) (fun t => t) NamesVariant.pending (descr_key (names_only shipped) NamesVariant.small)
+     = [NamesVariant.small; NamesVariant.big]
+   /\ t_opts NamesVariant.big <> t_opts NamesVariant.small)
+  /\ (group_of shipped (fun t => t) NamesVariant.pending (descr_key shipped NamesVariant.small) = [NamesVariant.small]
+      /\ group_of shipped (fun t => t) NamesVariant.pending (descr_key shipped NamesVariant.big) = [NamesVariant.big]).
+Proof. exact (conj NamesVariant.refuted NamesVariant.shipped_separates). Qed.
 
 Theorem C32_array_group_elem_eq_local :
   forall V pbytes (dump : obj V -> pbytes) load (F : str -> obj V -> obj V -> outcome V) valid tb_of,
@@ -315,6 +333,8 @@ Print Assumptions C32_history_fixed_agrees.
 Print Assumptions C32_attempts_eq_local.
 Print Assumptions C32_attempts_after_failures.
 Print Assumptions C32_stage_if_absent_refuted.
+Print Assumptions C32_array_group_same_options.
+Print Assumptions C32_grouping_names_only_refuted.
 Print Assumptions C32_array_group_own_task.
 Print Assumptions C32_array_group_elem_eq_local.
 Print Assumptions C32_grouping_by_name_refuted.
